@@ -110,11 +110,11 @@ fn c07_set_value_step_8() {
             kani::assert(p.clock.ops.get() <= k, "C12: failing pin write swallowed");
         }
         Err(_) => {
-            kani::assert(bus.last.is_none(), "C07: cache claims a value after a failed pin write");
+            kani::assert(bus.last.is_none(), "C07: C12: cache claims a value after a failed pin write (a later call would skip pins that were never written)");
             kani::assert(p.clock.ops.get() == k + 1, "C12: pin written after the failing one");
         }
     }
-    if let Some(l) = bus.last { kani::assert(p.value.get() == l as u16, "C07: cache invariant broken"); }
+    if let Some(l) = bus.last { kani::assert(p.value.get() == l as u16, "C07: C12: cache invariant broken"); }
     kani::cover!(r.is_err());
     kani::cover!(r.is_ok() && p.data_writes.get() == 0);
 }
@@ -134,11 +134,11 @@ fn c07_set_value_step_16() {
             kani::assert(bus.last == Some(v), "C07: cache not updated");
         }
         Err(_) => {
-            kani::assert(bus.last.is_none(), "C07: cache claims a value after a failed pin write");
+            kani::assert(bus.last.is_none(), "C07: C12: cache claims a value after a failed pin write (a later call would skip pins that were never written)");
             kani::assert(p.clock.ops.get() == k + 1, "C12: pin written after the failing one");
         }
     }
-    if let Some(l) = bus.last { kani::assert(p.value.get() == l, "C07: cache invariant broken"); }
+    if let Some(l) = bus.last { kani::assert(p.value.get() == l, "C07: C12: cache invariant broken"); }
     kani::cover!(r.is_err());
 }
 /// base case: a new bus claims nothing
